@@ -433,7 +433,10 @@ func engineOracles(c *Ctx, ec *eCase, recs []reqRec) {
 			}
 			// (not checked before the engine's first successful request: `prepare` then applies the configured
 			// language; nor right after a failed Flush, whose pending unwind any next Exec performs)
-			if prev != nil && prev.state != "nostate" && okSeen && prev.f != "err" && !sameState(prev, r) && prev.x != "panic" {
+			// (mode ws: a new engine prepares the state object the client kept; after a session end that object is a new session's
+			// state again and the preparation applies the configured language to it, whatever the input - same exemption as above)
+			if prev != nil && prev.state != "nostate" && okSeen && prev.f != "err" && !sameState(prev, r) && prev.x != "panic" &&
+				!(ec.mode == "ws" && len(prev.path) == 0) {
 				c.Fail("C17", "refused-changed-state", fmt.Sprintf("%s: state changed: %s -> %s", where, trunc(prev.state, 200), trunc(r.state, 200)))
 			}
 		}
